@@ -61,6 +61,21 @@ def table_kinds(term, scrut, render):
     return out
 
 
+TRUE = ('true',)
+
+
+def order_only(src):
+    """the list a source term ranges over after peeling steps that only re-order it: `reorder` by a sort / reverse (never dedup / truncate /
+    retain) and identity collections (`list.iter().collect()`)"""
+    while True:
+        if src[0] == 'reorder' and src[2] in ('sort', 'sort_by', 'sort_by_key', 'sort_unstable', 'sort_unstable_by', 'sort_unstable_by_key', 'sort_by_cached_key', 'reverse') and src[4] == TRUE:
+            src = src[1]
+        elif src[0] == 'star' and not src[4] and not src[5] and src[3] == ('elem', src[2], src[1]):
+            src = src[1]
+        else:
+            return src
+
+
 def run(rep):
     ogp = E.load()
     rep.explanation = __doc__
@@ -107,7 +122,9 @@ def run(rep):
             rep.bad('C04.anchor', f'{label}-repetition', where, f'{len(inner)} repetitions produce {label}', undecided=True)
             return None
         s = inner[0]
-        ok = s[1] == BINDINGS and not s[4] and not s[5]
+        # the order in which the bindings are listed is immaterial (every entry carries its own index): a copy of the list that was only
+        # re-ordered (sort*, reverse) is the same set of bindings
+        ok = order_only(s[1]) == BINDINGS and not s[4] and not s[5]
         rep.check(ok, f'C04.{label}.same-list', f'{label}-source', where,
                   f'{label} are generated from {E.show(s[1], maxdepth=5)} with {len(s[4])} filter(s); expected the binding list of this group, unfiltered and unadapted: the set of '
                   f'indices / fields would differ from the layout', ok_detail='for binding in group.bindings')
